@@ -89,3 +89,34 @@ func H_C14_string_forms() {
 	verifAssert(ra == rb && ra == rc, "the three forms render identically")
 	verifAssert(len(g.items) == 1 && verifSameObject(g.items[0], c), "the *Group form appends the new statement and returns it")
 }
+
+// the *Group form always appends a NEW statement: chaining on what it returns must not
+// modify the arguments, which may be reused elsewhere
+func H_C14_group_form_is_fresh() {
+	f := NewFile("p")
+	g := &Group{}
+	x := Id(nondetString("x"))
+	var s *Statement
+	switch nondetChoice("ctor", 4) {
+	case 0:
+		s = g.Add(x)
+	case 1:
+		s = g.Parens(x)
+	case 2:
+		s = g.List(x)
+	case 3:
+		s = g.Add(x, x)
+	}
+	verifAssert(!verifSameObject(s, x), "the *Group form returns a new statement, not its argument")
+	before, _ := c14raw(x, f)
+	s.Id(nondetString("suffix"))
+	after, _ := c14raw(x, f)
+	verifAssert(before == after && after == nondetString("x"), "chaining on the returned statement leaves the argument untouched")
+	verifAssert(len(g.items) == 1 && verifSameObject(g.items[0], s), "the group holds exactly the returned statement")
+	// the same for the package-level and *Statement forms of Add
+	y := Id(nondetString("y"))
+	a := Add(y)
+	a.Id("z")
+	ry, _ := c14raw(y, f)
+	verifAssert(ry == nondetString("y"), "Add does not alias its argument")
+}
